@@ -42,7 +42,8 @@ META = {
         "and synthesis is C02's / C04's",
     ],
     "assumptions": [
-        "signature trees enumerated: depth <= 3 quick / 4 thorough, <= 2 members per level from the listed pool, dimensions () (2,) (2,1)",
+        "signature trees enumerated: depth <= 3 quick / 4 thorough, <= 2 members per level from the listed pool, dimensions () (2,) (2,1) (2,3), "
+        "plus 30 (quick) / 250 (thorough) trees drawn with a fixed seed (depth <= 3, 1-3 members per level, dimensions up to 2-D)",
         "tuples: 2 and 3 interfaces, all argument orders",
         "closed (structural) obligations are exhaustive over the enumerated trees, not a proof over all trees",
     ],
@@ -108,6 +109,46 @@ def trees(depth):
         out.append((("a", "i", "s", (("b", "i", "s", (leaf_i,), ()),), ()), ("b", "o", "s", (leaf_i,), ())))
         out.append((("s", "o", "s", (("s", "i", "s", (("s", "o", "p", ("s3", -2), (2,)),), ()),), ()),))
     return out
+
+
+class _Lcg:
+    def __init__(self, seed):
+        self.x = seed & 0xFFFFFFFF
+
+    def next(self, n):
+        self.x = (1103515245 * self.x + 12345) & 0x7FFFFFFF
+        return (self.x >> 8) % n
+
+    def pick(self, xs):
+        return xs[self.next(len(xs))]
+
+
+def _gen_tree(g, depth=0):
+    """a signature description drawn at random (fixed seed): 1-3 members per level, ports of every listed shape, nested
+    signatures up to depth 3, flows and array dimensions (none, 1-D, 2-D, with a dimension of 1) at every level"""
+    names = ["a", "b", "s", "c"]
+    n = 1 + g.next(3)
+    out = []
+    start = g.next(len(names))
+    for i in range(n):
+        name = names[(start + i) % len(names)]
+        flow = g.pick("io")
+        dims = g.pick([(), (), (), (2,), (1,), (2, 2), (1, 3)]) if depth < 2 else g.pick([(), (), (2,)])
+        if depth < 2 and g.next(5) < 2:
+            out.append((name, flow, "s", _gen_tree(g, depth + 1), dims))
+        else:
+            pf, pl, _pd = PORTS[g.next(len(PORTS))]
+            out.append((name, flow, "p", pl, dims))
+    return tuple(out)
+
+
+N_GENERATED = {"quick": 30, "thorough": 250}
+_g = _Lcg(14092026)
+GENERATED = [_gen_tree(_g) for _ in range(N_GENERATED["thorough"])]
+
+
+def all_trees(tier):
+    return trees(META["bounds"][tier]["depth"]) + GENERATED[:N_GENERATED["quick" if tier == "quick" else "thorough"]]
 
 
 def build_sig(desc):
@@ -499,7 +540,7 @@ def check_metadata_aggregates():
 
 def tasks(tier):
     ts = []
-    tr = trees(META["bounds"][tier]["depth"])
+    tr = all_trees(tier)
     for k in range(len(tr)):
         ts += [("structure", tier, k), ("connect", tier, k), ("metadata", tier, k)]
     ts.append(("errors",))
@@ -514,7 +555,7 @@ def canaries(tier):
 def run_task(task):
     k = task[0]
     if k in ("structure", "connect", "metadata"):
-        desc = trees(META["bounds"][task[1]]["depth"])[task[2]]
+        desc = all_trees(task[1])[task[2]]
         fn = {"structure": check_structure, "connect": check_connect, "metadata": check_metadata}[k]
         return fn(task[2], desc)
     if k == "errors":
